@@ -271,9 +271,14 @@ package stun
 //@   ensures !old(Has(msg, attr)) ==> result != nil
 //@   ensures result == nil ==> old(len(AttrVal(msg, attr))) > 4 && (old(be16(AttrVal(msg, attr), 0)) == 1 || old(be16(AttrVal(msg, attr), 0)) == 2)
 //@   ensures result == nil ==> len(a.IP) == ite(old(be16(AttrVal(msg, attr), 0)) == 2, 16, 4) && old(len(AttrVal(msg, attr))) - 4 <= len(a.IP)
+//@   -- and it succeeds whenever the first attribute of that type is a well-formed address value
+//@   ensures old(Has(msg, attr)) && old(len(AttrVal(msg, attr))) > 4 && (old(be16(AttrVal(msg, attr), 0)) == 1 || old(be16(AttrVal(msg, attr), 0)) == 2) && old(len(AttrVal(msg, attr))) - 4 <= ite(old(be16(AttrVal(msg, attr), 0)) == 2, 16, 4) ==> result == nil
 //@   ensures result == nil ==> a.Port == xor16(old(be16(AttrVal(msg, attr), 2)), 0x2112)
 //@   ensures result == nil ==> forall(j, 0, old(len(AttrVal(msg, attr))) - 4, a.IP[j] == xor8(old(AttrVal(msg, attr)[4+j]), cookie_tid(msg, j)))
+//@   -- C07 too: the result depends on the attribute value only, never on what a reused destination held before
+//@   props C06 C07
 //@   ensures result == nil ==> forall(j, old(len(AttrVal(msg, attr))) - 4, len(a.IP), a.IP[j] == 0)
+//@   props C06
 //@   props C07
 //@   loop 0
 //@     assigns a.IP, mem(a.IP)
@@ -307,7 +312,10 @@ package stun
 //@   ensures result == nil ==> len(a.IP) == ite(old(be16(AttrVal(m, t), 0)) == 2, 16, 4)
 //@   ensures result == nil ==> a.Port == old(be16(AttrVal(m, t), 2))
 //@   ensures result == nil ==> forall(j, 0, min(len(a.IP), old(len(AttrVal(m, t))) - 4), a.IP[j] == old(AttrVal(m, t)[4+j]))
+//@   -- C07 too: the result depends on the attribute value only, never on what a reused destination held before
+//@   props C06 C07
 //@   ensures result == nil ==> forall(j, old(len(AttrVal(m, t))) - 4, len(a.IP), a.IP[j] == 0)
+//@   props C06
 //@   props C07
 //@   loop 0
 //@     assigns a.IP, mem(a.IP)
@@ -1154,7 +1162,7 @@ package stun
 //@ func (*Message).WriteAttributes(m)
 //@   safety C03 C08
 //@   props C03 C08
-//@   requires EncodeOK(m) && m.Length == 0 && len(m.Raw) == 20 && region(m.Attributes) != 0
+//@   requires EncodeOK(m) && m.Length == 0 && len(m.Raw) == 20
 //@   assigns m.Raw, m.Length, m.Attributes, mem(m.Raw), mem(m.Attributes)
 //@   allocates
 //@   ensures sameslice(m.Attributes, old(m.Attributes))
@@ -1193,7 +1201,7 @@ package stun
 //@ func (*Message).Encode(m)
 //@   safety C03 C08
 //@   props C03 C08
-//@   requires EncodeOK(m) && TypeOK(m) && region(m.Attributes) != 0
+//@   requires EncodeOK(m) && TypeOK(m)
 //@   assigns m.Raw, m.Length, m.Attributes, mem(m.Raw), mem(m.Attributes)
 //@   allocates
 //@   -- C08: whatever the message held before, the header length agrees with the buffer
@@ -1241,7 +1249,7 @@ package stun
 //@ func verifLemmaEncodeThenDecode(m)
 //@   safety C03
 //@   props C03
-//@   requires EncodeOK(m) && TypeOK(m) && region(m.Attributes) != 0
+//@   requires EncodeOK(m) && TypeOK(m)
 //@   assigns *m, mem(m.Raw), mem(m.Attributes)
 //@   allocates
 //@   ensures result == nil
@@ -1262,6 +1270,46 @@ package stun
 //@   assert len(u) <= 513 ==> len(m.Attributes[old(len(m.Attributes))].Value) == len(u) && forall(j, 0, len(u), m.Attributes[old(len(m.Attributes))].Value[j] == old(u[j]))
 //@   ensures len(u) <= 513 ==> result1 == nil && len(result0) == len(u) && forall(j, 0, len(u), result0[j] == old(u[j]))
 //@   ensures len(u) > 513 ==> result1 != nil
+
+//@ func verifLemmaTextRoundTrip(m, v, t, maxLen)
+//@   safety C06
+//@   props C06
+//@   -- no attribute that decodes to type t is there yet (0x8020 is read as 0x0020: the tolerated legacy alias)
+//@   requires Built(m) && Wire(m) && CanAdd(m, v) && !Has(m, t) && t != 0x8020 && (t != 0x0020 || !Has(m, 0x8020)) && region(v) != region(m.Raw)
+//@   assigns *m, mem(m.Raw), mem(m.Attributes)
+//@   allocates
+//@   assert len(v) <= maxLen ==> len(m.Attributes) == old(len(m.Attributes)) + 1 && First(m.Attributes, t) == old(len(m.Attributes))
+//@   assert len(v) <= maxLen ==> len(m.Attributes[old(len(m.Attributes))].Value) == len(v) && forall(j, 0, len(v), m.Attributes[old(len(m.Attributes))].Value[j] == old(v[j]))
+//@   ensures len(v) <= maxLen ==> result1 == nil && len(result0) == len(v) && forall(j, 0, len(v), result0[j] == old(v[j]))
+//@   ensures len(v) > maxLen ==> result1 != nil
+
+//@ define OldStart(m, k) = old(start(m.Raw, k))
+//@ func verifLemmaDecodedIsEncodable(m)
+//@   safety C03
+//@   props C03
+//@   requires m != nil
+//@   assigns m.Type, m.Length, m.TransactionID, m.Attributes, mem(m.Attributes)
+//@   assert result == nil ==> forall(i, 0, len(m.Attributes), be16(m.Raw, start(m.Raw, i) + 2) == WLens(m)[i])
+//@   use result == nil ==> forall(k, 0, len(m.Attributes) + 1, vpos_start(m.Raw, WLens(m), len(m.Attributes), k), vpos(WLens(m), k))
+//@   use mtype_encode_decode(be16(m.Raw, 0))
+//@   ensures result == nil <==> accept(m.Raw, len(m.Raw))
+//@   ensures result == nil ==> DecodedViews(m) && DecodedContent(m)
+//@   ensures result == nil ==> forall(k, 0, len(m.Attributes) + 1, vpos(WLens(m), k) == start(m.Raw, k), vpos(WLens(m), k))
+//@   ensures result == nil ==> EncodeOK(m) && TypeOK(m)
+
+//@ func verifLemmaDecodeThenEncode(m)
+//@   safety C03
+//@   props C03
+//@   requires m != nil
+//@   assigns *m, mem(m.Raw), mem(m.Attributes)
+//@   allocates
+//@   ensures result == nil <==> old(accept(m.Raw, len(m.Raw)))
+//@   ensures result == nil ==> Built(m) && Wire(m)
+//@   ensures result == nil ==> m.Type.Method == old(mtype_method(be16(m.Raw, 0))) && m.Type.Class == old(mtype_class(be16(m.Raw, 0)))
+//@   ensures result == nil ==> forall(j, 0, 12, m.TransactionID[j] == old(m.Raw[8+j]))
+//@   ensures result == nil ==> OldStart(m, len(m.Attributes)) == 20 + old(be16(m.Raw, 2))
+//@   ensures result == nil ==> forall(k, 0, len(m.Attributes), m.Attributes[k].Type == old(compat(be16(m.Raw, start(m.Raw, k)))) && len(m.Attributes[k].Value) == old(be16(m.Raw, start(m.Raw, k) + 2)))
+//@   ensures result == nil ==> forall(k, 0, len(m.Attributes), forall(j, 0, len(m.Attributes[k].Value), m.Attributes[k].Value[j] == old(m.Raw[start(m.Raw, k) + 4 + j])))
 
 //@ func Build(setters)
 //@   safety C03 C09
@@ -1776,6 +1824,9 @@ package stun
 //@   loop 0
 //@     assigns everything, gmap(held), ghost(now_last), ghost(wr_n), gmapa(wr_data), gmap(wr_len), gmap(wr_errt), gmap(wr_errv), ghost(ag_n), gmap(ag_op), gmapa(ag_id), gmap(ag_dl), gmap(ag_errt), gmap(ag_errv), ghost(ev_n), gmapa(ev_tid), gmap(ev_errt), gmap(ev_errv), gmap(ev_msg), gmap(ev_h)
 //@     invariant c.c != nil && c.a != nil && m != nil && fresh(m) && cap(m.Raw) >= 1024 && len(m.Raw) <= cap(m.Raw) && region(m.Raw) != 0 && ghost(wg_dones) == old(ghost(wg_dones))
+//@     -- C15: the reader is stopped through c.close: it looks at it on every trip round the loop, whatever the read returned
+//@     props C15
+//@     polls close
 
 // ---- Close (C15). Ghost counters: coll_closes, agent_closes, conn_closes, wg_waits; gmap(chclosed)[ch] = 1 once ch is closed.
 //@ func Collector.Close(a)
